@@ -1,7 +1,9 @@
 #!/usr/bin/env python3
-"""Development aid (not a registered check): apply a seeded change to /repo,
-run the given checks at the quick tier, report which of them raise a
-VIOLATION, and undo the change.   tools/seedtest.py <patch.diff> C05 C06 ..."""
+"""Development aid (not a registered check): apply a seeded change to a scratch
+worktree of /repo (never to /repo itself), run the given checks at the quick
+tier against that worktree (VERIF_REPO / VERIF_BUILD_DIR), report which of
+them raise a VIOLATION, and remove the worktree.
+   tools/seedtest.py <patch.diff> C05 C06 ..."""
 import json
 import os
 import subprocess
@@ -9,28 +11,32 @@ import sys
 import time
 
 VERIF = os.path.dirname(os.path.dirname(os.path.abspath(__file__)))
+WT = "/tmp/wt/seed"
+BUILD = "/tmp/wt/seedbuild"
 
 
 def main():
     patch = os.path.abspath(sys.argv[1])
     checks = sys.argv[2:]
-    st = subprocess.run(["git", "-C", "/repo", "status", "--porcelain", "--untracked-files=no"], capture_output=True, text=True).stdout
-    if st.strip():
-        print("refusing: /repo has local modifications")
-        return 2
-    a = subprocess.run(["git", "-C", "/repo", "apply", patch], capture_output=True, text=True)
+    subprocess.run(["git", "-C", "/repo", "worktree", "remove", "--force", WT], capture_output=True)
+    a = subprocess.run(["git", "-C", "/repo", "worktree", "add", "--detach", WT, "HEAD"], capture_output=True, text=True)
     if a.returncode != 0:
-        a = subprocess.run(["git", "-C", "/repo", "apply", "--3way", patch], capture_output=True, text=True)
-        if a.returncode != 0:
-            print("patch does not apply:", a.stderr[-500:])
-            subprocess.run(["git", "-C", "/repo", "reset", "-q", "--hard", "HEAD"])
-            return 2
+        print("cannot create worktree:", a.stderr[-300:])
+        return 2
     results = {}
     try:
+        a = subprocess.run(["git", "-C", WT, "apply", patch], capture_output=True, text=True)
+        if a.returncode != 0:
+            a = subprocess.run(["git", "-C", WT, "apply", "--3way", patch], capture_output=True, text=True)
+            if a.returncode != 0:
+                print("patch does not apply:", a.stderr[-500:])
+                return 2
         for c in checks:
             t0 = time.time()
             env = dict(os.environ)
-            env["VERIF_EVIDENCE_DIR"] = os.path.join(VERIF, ".build", "seed-evidence")
+            env["VERIF_EVIDENCE_DIR"] = os.path.join(BUILD, "seed-evidence")
+            env["VERIF_REPO"] = WT
+            env["VERIF_BUILD_DIR"] = BUILD
             p = subprocess.run([os.path.join(VERIF, "check"), c, "--tier", "quick"], cwd=VERIF, capture_output=True, text=True, env=env)
             viol = [l for l in p.stdout.split("\n") if l.startswith("VIOLATION")]
             first = ""
@@ -43,8 +49,7 @@ def main():
                           "tool_error": (p.stderr.strip().split("\n")[-1][:200] if p.returncode == 2 else "")}
             print(c, results[c], flush=True)
     finally:
-        subprocess.run(["git", "-C", "/repo", "reset", "-q", "--hard", "HEAD"])
-        subprocess.run(["git", "-C", "/repo", "clean", "-fdq", "--", "src"])     # files a patch added
+        subprocess.run(["git", "-C", "/repo", "worktree", "remove", "--force", WT], capture_output=True)
     print(json.dumps(results))
     return 0
 
